@@ -11,7 +11,7 @@ pub fn def() -> PropDef {
     PropDef { id: "C14", level: "exploration", run, case, render }
 }
 fn opts() -> RawGenOpts {
-    RawGenOpts { abstracts: true, pico: false, annotations: true, nets_need_label_purpose: false, nonrect_nets: true, max_cells: 5 }
+    RawGenOpts { abstracts: true, pico: false, annotations: true, nets_need_label_purpose: false, nonrect_nets: true, max_cells: 5, closed_polygons: true }
 }
 #[derive(Clone, Debug, PartialEq, Eq, PartialOrd, Ord)]
 enum Canon {
@@ -182,7 +182,13 @@ fn gen_layer_shapes(src: &mut Src, number: i64, purpose: i64, slot: usize) -> pr
         let net = if src.bool() { src.pick(&["a", "VDD", "n<1>"]).to_string() } else { String::new() };
         match gen_geom(src, slot + k).0 {
             RGeom::Rect(a, b) => ls.rectangles.push(proto::Rectangle { net, lower_left: Some(ppt((a.0.min(b.0), a.1.min(b.1)))), width: (a.0 - b.0).abs(), height: (a.1 - b.1).abs() }),
-            RGeom::Poly(v) => ls.polygons.push(proto::Polygon { net, vertices: v.into_iter().map(ppt).collect() }),
+            RGeom::Poly(mut v) => {
+                // some messages repeat the first vertex at the end; the point list is data, not to be "cleaned"
+                if src.prob(1, 4) {
+                    v.push(v[0]);
+                }
+                ls.polygons.push(proto::Polygon { net, vertices: v.into_iter().map(ppt).collect() })
+            }
             RGeom::Path(v, w) => ls.paths.push(proto::Path { net, points: v.into_iter().map(ppt).collect(), width: w as i64 }),
         }
     }
